@@ -4,6 +4,7 @@ import (
 	"github.com/btcsuite/btcd/btcutil/hdkeychain"
 	"github.com/btcsuite/btcd/chaincfg"
 	"github.com/tyler-smith/go-bip39"
+	"golang.org/x/text/unicode/norm"
 
 	"github.com/ethereum/go-ethereum/accounts"
 	"github.com/ethereum/go-ethereum/crypto"
@@ -62,7 +63,10 @@ func (s ethSecp256k1Algo) Derive() hd.DeriveFn {
 			return nil, err
 		}
 
-		seed, err := bip39.NewSeedWithErrorChecking(mnemonic, bip39Passphrase)
+		// BIP-39 feeds the mnemonic sentence and the passphrase to PBKDF2 in UTF-8 NFKD form, go-bip39 takes
+		// the bytes as they are: normalize here, so that a passphrase typed with precomposed or compatibility
+		// characters gives the same seed as in every other wallet.
+		seed, err := bip39.NewSeedWithErrorChecking(norm.NFKD.String(mnemonic), norm.NFKD.String(bip39Passphrase))
 		if err != nil {
 			return nil, err
 		}
